@@ -468,6 +468,7 @@ int run_sched(std::istream& in)
 std::atomic<long>      g_seq{0};
 std::atomic<long>      g_stamp{0};
 thread_local long      tl_first_seq = -1;
+thread_local long      tl_last_seq  = -1;
 thread_local int       tl_ncs       = 0;
 void hook_after_lock_rec(const void*)
 {
@@ -476,6 +477,7 @@ void hook_after_lock_rec(const void*)
     long s = ++g_seq; // drawn while the container lock is held: the order of critical sections
     if (tl_first_seq < 0)
         tl_first_seq = s;
+    tl_last_seq = s;
     tl_ncs++;
 }
 
@@ -518,7 +520,7 @@ Call random_call(std::mt19937& g, const KindCaps& caps, const Cfg& cfg, int keys
     c.op = op;
     c.k  = rk();
     c.v  = caps.is_set ? 1 : 1 + static_cast<int>(g() % 50);
-    c.a  = 3;
+    c.a  = (g() % 4 == 0) ? 1 + static_cast<int>(g() % 2) : 3;
     c.d  = 100000; // nothing expires during a free run (the clock is frozen anyway)
     c.p  = caps.has_peek ? static_cast<int>(g() % 2) : 0;
     if (op == "insr" || op == "erar" || op == "findr" || op == "findf")
@@ -623,11 +625,12 @@ int run_free(std::istream& in)
                             r.t          = tid;
                             r.c          = random_call(g, M.caps, M.cfg, keys, f);
                             tl_first_seq = -1;
+                            tl_last_seq  = -1;
                             tl_ncs       = 0;
                             r.inv        = record ? ++g_stamp : 0;
                             r.r          = exec_call(*M.c, r.c);
                             r.res        = record ? ++g_stamp : 0;
-                            r.seq        = tl_first_seq;
+                            r.seq        = tl_last_seq; // the last critical section: where a two-phase call takes effect
                             r.ncs        = tl_ncs;
                             if (record)
                                 recs[tid].push_back(std::move(r));
